@@ -12,3 +12,52 @@ package replication
 //@   check[C16] before call .SetReadOnly#3: !typeIs(e.engine, "*engine.EngineFacade")
 //@   check[C16] before call .SetReadOnly#5: !typeIs(e.engine, "*engine.EngineFacade")
 //@   ensures[C16] true
+
+// ---- C13: the applier's cursor.  Ghost history: appliedUpTo = sequence number of the last entry for which the
+// apply function returned nil; applyCalls = number of successful applications.  ApplInv: what has been applied
+// is exactly what the cursor says, so a retransmitted batch is never re-applied and nothing is skipped.
+//@ ghost field (*WALBatchApplier) appliedUpTo uint64
+//@ ghost field (*WALBatchApplier) applyCalls int
+//@ predicate ApplInv(a *WALBatchApplier) = a.appliedUpTo == a.maxAppliedSeq && a.expectedNextSeq == a.maxAppliedSeq + 1
+
+//@ func (*WALBatchApplier).ApplyEntries
+//@   requires ApplInv(a) && a.maxAppliedSeq < 18446744073709551615 && (forall i int :: 0 <= i && i < len(entries) ==> entries[i] != nil && entries[i].SequenceNumber < 18446744073709551615)
+//@   ensures[C13] ApplInv(a)
+//@   ensures[C13] a.maxAppliedSeq >= old(a.maxAppliedSeq) && result0 == a.maxAppliedSeq
+//@   ensures[C13] len(entries) > 0 && entries[0].SequenceNumber != old(a.expectedNextSeq) ==> result1 && err != nil && a.applyCalls == old(a.applyCalls)
+//@   ensures[C13] a.applyCalls - old(a.applyCalls) == a.maxAppliedSeq - old(a.maxAppliedSeq)
+//@   ensures[C13] err == nil && len(entries) > 0 ==> a.maxAppliedSeq == entries[len(entries)-1].SequenceNumber && a.applyCalls == old(a.applyCalls) + len(entries)
+//@   ghost after call applyFn#1: a.appliedUpTo = ite(err == nil, protoEntry.SequenceNumber, a.appliedUpTo)
+//@   ghost after call applyFn#1: a.applyCalls = ite(err == nil, a.applyCalls + 1, a.applyCalls)
+//@ loop (*WALBatchApplier).ApplyEntries#1
+//@   invariant[C13] len(entries) > 0 && entries[0].SequenceNumber == old(a.expectedNextSeq) && old(a.expectedNextSeq) == old(a.maxAppliedSeq) + 1
+//@   invariant[C13] a.applyCalls == old(a.applyCalls) + idx && (idx == 0 ==> a.appliedUpTo == old(a.appliedUpTo)) && (idx > 0 ==> a.appliedUpTo == entries[idx-1].SequenceNumber && lastAppliedSeq == a.appliedUpTo)
+//@   invariant[C13] forall j int :: 0 <= j && j < idx ==> entries[j].SequenceNumber == old(a.expectedNextSeq) + j
+//@   invariant[C13] ApplInv(a) && a.maxAppliedSeq == old(a.maxAppliedSeq) + idx
+//@   invariant[C13] forall i int :: 0 <= i && i < len(entries) ==> entries[i] != nil && entries[i].SequenceNumber < 18446744073709551615
+
+//@ func (*WALBatchApplier).Reset
+//@   ensures[C13] a.maxAppliedSeq == seq && a.lastAckSeq == seq && (seq < 18446744073709551615 ==> a.expectedNextSeq == seq + 1)
+//@ func (*WALBatchApplier).AcknowledgeUpTo
+//@   ensures[C13] a.lastAckSeq == max(old(a.lastAckSeq), seq) && a.maxAppliedSeq == old(a.maxAppliedSeq)
+//@ func (*WALBatchApplier).GetMaxApplied
+//@   ensures[C13] result == a.maxAppliedSeq
+//@ func NewWALBatchApplier
+//@   ensures[C13] result != nil && result.maxAppliedSeq == startSeq && (startSeq < 18446744073709551615 ==> result.expectedNextSeq == startSeq + 1)
+
+// Arbitrary payload bytes: DeserializeWALEntry returns an error or an entry, never panics, and allocates at most
+// the sanity limits (1 MiB key, 10 MiB value).  (The bit-level round trip with SerializeWALEntry is not under
+// contract: variable shifts are outside the arithmetic fragment of the verifier.)
+//@ func DeserializeWALEntry
+//@   safety[C13]
+//@   ensures[C13] err == nil ==> result0 != nil && len(result0.Key) <= 1048576 && len(result0.Value) <= 10485760 && (result0.Type == wal.OpTypePut || result0.Type == wal.OpTypeDelete || result0.Type == wal.OpTypeMerge)
+//@   ensures[C13] err == nil && result0.Type == wal.OpTypeDelete ==> result0.Value == nil
+//@   ensures[C13] err != nil ==> result0 == nil
+//@ loop DeserializeWALEntry#2
+//@   invariant[C13] 0 <= i && i <= 8 && offset == 1 && len(payload) >= 13
+//@ loop DeserializeWALEntry#3
+//@   invariant[C13] 0 <= i && i <= 4 && offset == 9 && len(payload) >= 13
+//@ loop DeserializeWALEntry#4
+//@   invariant[C13] entry != nil && entry.Key == key && entry.Type == opType && entry.Value == nil && len(key) <= 1048576 && offset >= 13 && offset <= len(payload)
+//@ loop DeserializeWALEntry#5
+//@   invariant[C13] 0 <= i && i <= 4 && offset >= 13 && offset + 4 <= len(payload) && entry != nil && entry.Key == key && entry.Type == opType && entry.Value == nil && len(key) <= 1048576
